@@ -571,6 +571,11 @@ def merge(olines, base, cur, relpath, overlay_name):
             changed += i2 - i1
         else:
             changed += max(i2 - i1, j2 - j1)
+            if tag == 'replace':
+                # lines replaced by a different number of lines: the replacement is emitted where the first replaced
+                # line stood, so that annotation lines which followed the replaced lines still follow the new text
+                for d in range(i2 - i1):
+                    bmap[i1 + d] = ('gone', j2)
     out, origin, lost = [], [], []
     cpos = 0
 
@@ -607,6 +612,11 @@ def merge(olines, base, cur, relpath, overlay_name):
                 lost.append((ol.kind, ol.ono))
             continue
         tag, c = m
+        if tag == 'gone':
+            flush(max(c, cpos))
+            if ol.kind != 'plain':
+                lost.append((ol.kind, ol.ono))
+            continue
         if c < cpos:
             continue
         flush(c)
